@@ -9,11 +9,13 @@ LEAN_TARGETS = ['Props.C13']
 TIE_A = ['g3c_rotor_between_planes_eq', 'g3c_rotor_roots_eq', 'val_exp_eq']
 OBLIGATIONS = ['C13.intertwining', 'C13.rotor_carries', 'C13.translation_fixes_einf', 'C13.rotor_between_objects_positive_root',
                'C13.rotor_between_objects_scalar_sigma', 'C13.positive_root_squares', 'C13.square_root_of_rotor',
-               'C13.sigma_is_scalar_plus_pseudovector', 'C13.reverse_of_C', 'C13.rotor_between_objects_g3c']
+               'C13.sigma_is_scalar_plus_pseudovector', 'C13.reverse_of_C', 'C13.rotor_between_objects_g3c', 'C13.ga_log_inverts_ga_exp_partial']
 PARTIAL = ['the polar-decomposition normalisation is proved with the square roots as parameters constrained by their defining equations (positive-root branch, scalar sigma, '
            'positive_root squared, square root of a rotor); that sigma = C~C is scalar + 4-vector with a scalar square IS proved for every pair of same-grade blades of the '
            '5-dimensional algebra (sigma_is_scalar_plus_pseudovector, rotor_between_objects_g3c). The floating-point choice between the '
-           'branches, motor_between_rounds, logarithm/exponential pairs and interpolation have no Lean theorem: decided by evaluation on the implementation']
+           'branches, motor_between_rounds, general_logarithm and interpolation have no Lean theorem: decided by evaluation on the implementation',
+           'ga_log(ga_exp(B)) = B: proved for the closed form of ga_exp with the grade parts of R given explicitly (ga_log_inverts_ga_exp_partial); that R(2), R(4), (phiP R(2))(2) '
+           'select exactly those parts and that arccos(R[()]) returns phi are evaluated']
 RULE = ("pairs of normalised point pairs, lines, circles, planes and spheres built from integer points (coordinates in [-4, 4]) in general position and in the special "
         "positions equal, translated, rotated, dilated, parallel, concentric, intersecting, disjoint, nested (antipodal X2 = -X1 excluded); TR / TRS rotors with translation "
         "<= 4 and scale in [1/2, 2]. Non-trivial = X1 != X2; distinct = distinct (kind, position, points)")
